@@ -24,7 +24,7 @@ CLAIMED = {
     "C01": {
         "text": "Every compute_pl / compute_portfolio / compute_pnl in seeded histories (H = 1..3 hedging instruments incl. listed derivatives priced by Black-Scholes modules and a second primary, distinct cost rates, market-data faults F9 - jumps, crashes, zig-zag, flat, pinned - and re-simulation F10) and direct pl()/terminal_value() calls on simulator tapes are compared with a broker ledger evaluated in exact rational arithmetic; admissible error is a forward rounding bound of the working dtype. The oracle gathers prices, positions, cost rates and payoff itself (spot of each hedge, a separate compute_hedge, instrument.cost, derivative.payoff()), independently of how Hedger wires them.",
         "design_ref": "DESIGN.md 6/C01",
-        "note": "Bound 4*(H*T+10)*eps*sum|terms|; non-finite inputs are skipped (counted); the direct pl() group is plain value generation and is labelled so in the evidence.",
+        "note": "Bound (H*T+10)*eps*sum|terms|; non-finite inputs are skipped (counted); the direct pl() group is plain value generation and is labelled so in the evidence.",
         "technique": TECH + "exact-rational ledger reference model stepped through simulated time, market-data faults",
     },
     "C06": {
@@ -66,7 +66,7 @@ CLAIMED = {
     "C03": {
         "text": "Seeded search over worlds and short operation/fault sequences: every feature at every step vs its all-steps column; the same model driven through the vectorised and (via an ignored prev_hedge input) the stepwise branch - hedge, model inputs, P&L and loss compared; the recorded per-step inputs of a state-dependent hedger vs its previous outputs (bitwise), zero state of width H at step 0, T-1 calls; faults F2 (garbage prev_output), F8 (model raised in the previous call), F10 (hedger used on another simulation in between) placed right before the observed call.",
         "design_ref": "DESIGN.md 6/C03",
-        "note": "Cross-schedule agreement is checked within an evaluation-order tolerance (16 ulp for direct features; 1e-4 float32 / 1e-9 float64 for model outputs, P&L, loss); recurrent-state checks are bitwise.",
+        "note": "Cross-schedule agreement is checked within an evaluation-order tolerance (16 ulp for direct features; 1e-4 float32 / 1e-11 float64 for model outputs, P&L, loss); recurrent-state checks are bitwise.",
         "technique": TECH + "two schedules of one computation compared at a recording per-step seam, volatile-state faults",
     },
     "C17": {
